@@ -295,6 +295,12 @@ struct Shared {
     produced: Vec<AtomicU32>, // sources: items handed out
     task_wakes: [AtomicU32; 2],
     tw_live: std::sync::atomic::AtomicIsize,
+    /// child-waker invocations issued by the waker threads (counted before the call)
+    wake_calls: AtomicU32,
+    /// per child: invocations of its waker that began and ended while it was not finished
+    live_wakes: Vec<AtomicU32>,
+    /// invocations that may have landed on a vacated / re-used slot (target finished before or during the call)
+    stale_wakes: AtomicU32,
     threads_done: AtomicUsize,
     polled_after_done: AtomicBool,
 }
@@ -328,6 +334,9 @@ impl Shared {
             produced: (0..n).map(|_| AtomicU32::new(0)).collect(),
             task_wakes: [AtomicU32::new(0), AtomicU32::new(0)],
             tw_live: std::sync::atomic::AtomicIsize::new(0),
+            wake_calls: AtomicU32::new(0),
+            live_wakes: (0..n).map(|_| AtomicU32::new(0)).collect(),
+            stale_wakes: AtomicU32::new(0),
             threads_done: AtomicUsize::new(0),
             polled_after_done: AtomicBool::new(false),
         }
@@ -574,6 +583,8 @@ fn waker_thread(tid: usize, script: Vec<WOp>, sh: Arc<Shared>, is_merge: bool, d
                     }
                     _ => {}
                 }
+                sh.wake_calls.fetch_add(1, Ordering::SeqCst);
+                let done_before = sh.done[c].load(Ordering::SeqCst);
                 match how % 3 {
                     0 => {
                         w.wake_by_ref();
@@ -588,6 +599,11 @@ fn waker_thread(tid: usize, script: Vec<WOp>, sh: Arc<Shared>, is_merge: bool, d
                         drop(w);
                     }
                     _ => w.wake(),
+                }
+                if done_before || sh.done[c].load(Ordering::SeqCst) {
+                    sh.stale_wakes.fetch_add(1, Ordering::SeqCst);
+                } else {
+                    sh.live_wakes[c].fetch_add(1, Ordering::SeqCst);
                 }
             }
             WOp::CloneDrop(c) => {
@@ -892,6 +908,36 @@ fn execution(sc: &Scenario) {
         let _ = h.join();
     }
     CUR.with(|c| c.set(0));
+    // C12 under any schedule: every child poll is paid for by a queue entry, and queue entries are only made by an
+    // accepted push, by a child-waker invocation or by a merge re-arming a source that yielded
+    {
+        let polls: u64 = (0..total).map(|i| sh.poll_started[i].load(Ordering::SeqCst) as u64).sum();
+        let pushes = inside.iter().filter(|b| **b).count() as u64;
+        let wakes = sh.wake_calls.load(Ordering::SeqCst) as u64;
+        let rearms: u64 = items.iter().map(|x| *x as u64).sum();
+        // per child (sharper): a child is polled once for its push, once per invocation of its own waker while it was
+        // alive and once per item it yielded; invocations that may have hit a vacated or re-used slot are pooled
+        let pool = sh.stale_wakes.load(Ordering::SeqCst) as u64;
+        for i in 0..total {
+            let p = sh.poll_started[i].load(Ordering::SeqCst) as u64;
+            let lw = sh.live_wakes[i].load(Ordering::SeqCst) as u64;
+            if p > 1 + lw + items[i] as u64 + pool {
+                violate(
+                    12,
+                    "C12/child-polled-without-notification",
+                    format!("child {i} was polled {p} times: 1 push + {lw} invocations of its waker + {} items + {pool} possibly stale invocations", items[i]),
+                );
+                break;
+            }
+        }
+        if polls > pushes + wakes + rearms {
+            violate(
+                12,
+                "C12/polled-without-notification",
+                format!("{polls} child polls > {pushes} accepted pushes + {wakes} child-waker invocations + {rearms} merge items"),
+            );
+        }
+    }
     // quiescence oracle (C01): the task is asleep for good - nothing that was woken may be left behind
     if coll.is_some() && !resolved {
         let is_join = matches!(sc.subj, Subj::JA);
